@@ -53,8 +53,8 @@ CHECKS = {
   "train_test_split (n <= 5 quick, 6 thorough; several test_size values per n; x any bit pattern) is proved for EVERY permutation the shuffle can produce (the RNG shuffle is replaced by an arbitrary symbolic permutation): sizes, "
   "disjointness, union is a permutation of the rows, every target attached to its row, leading rows in order without shuffling; invalid test_size / length mismatch panic. KFold: the complete split iterator for k = 2 (n <= 5, "
   "shuffled n <= 3 quick / 4 thorough) and the index/mask computation behind it for k = 3..4 (n <= 9; shuffled n <= 5): exactly k folds, test sets partition 0..n-1, balanced, consecutive blocks without shuffling, train = complement; k < 2 panics. "
-  "cross_validate / cross_val_predict are NOT covered (the harness exceeded 17-40 GB).",
-  "Trusts Kani/CBMC; thread_rng and SliceRandom::shuffle are stubbed (fake_thread_rng, any_perm = arbitrary permutation); KFold::split for k >= 3 does not finish (Vec<Vec<bool>>::reverse), so for k >= 3 only test_indices/test_masks (hook) are decided; larger n and cross-validation are outside the claim.",
+  "cross_val_predict and cross_validate with the real KFold (k = 2, n = 3, 4; data any bit pattern) and an instrumented estimator: every model is fitted on exactly its fold's training rows with targets attached, is only asked about rows it has not seen, and every held-out prediction lands at the sample's original position.",
+  "Trusts Kani/CBMC; thread_rng and SliceRandom::shuffle are stubbed (fake_thread_rng, any_perm = arbitrary permutation); KFold::split for k >= 3 does not finish (Vec<Vec<bool>>::reverse), so for k >= 3 only test_indices/test_masks (hook) are decided; cross-validation only for k = 2 and n <= 4 (shuffled: thorough tier); larger n outside the claim.",
   "DESIGN.md 6/C16"),
  "C07": (True,
   "Ridge regression with one feature (n = 2, 3; x, y on an integer lattice; alpha in {1/2, 1, 2}; no normalisation; Cholesky solver): CBMC proves through the real fit (transpose, matmul, cholesky_solve_mut) that the intercept is exactly 0 and w*(sum x^2 + alpha) = sum x*y, "
